@@ -137,6 +137,11 @@ class Tokens:
             return ("ARRLIT", len(parts), tuple(parts))
         if rv["k"] == "repeat":
             v = core.op_const_val(rv["op"])
+            if v is None:
+                # `[x; N]` with x a parameter of this function: resolved where a caller's session is stitched to this one
+                o = flow.origin(f, rv["op"])
+                if o[0] == "arg":
+                    v = ("param", o[1])
             return ("FILL", rv.get("n"), v)
         return ("BYTES", None, "?")
 
@@ -565,6 +570,9 @@ class Sessions:
                 continue
             if any((last_seg(t) in ABSORB and "digest::Update" in full_path(t)) or (last_seg(t) in FINAL and "HashChain" in full_path(t)) for b, t in f.calls() if not f.blocks[b]["cleanup"]):
                 out.append(f)
+            elif f.locals and is_hasher_ty(f.locals[0]["ty"]) and any(is_hasher_ty(f.locals[t["dest"]["local"]]["ty"]) and self.F.call_targets(f, t)
+                                                                      for b, t in f.calls() if not f.blocks[b]["cleanup"]):
+                out.append(f)  # passes on a hasher prepared by another local function
         return out
 
     def classes(self, f):
@@ -679,7 +687,7 @@ class Sessions:
                     elif last == "default":
                         cur[find(dl)] = (("START", "fresh"),)
                     elif tps:
-                        cur[find(dl)] = (("START", "from:" + core.strip_generics(tps[0]).rsplit("::", 1)[-1]),)
+                        cur[find(dl)] = (("START", "from:" + core.strip_generics(tps[0]).rsplit("::", 1)[-1], (tps[0], b)),)
                     else:
                         cur[find(dl)] = (("START", "from:" + last),)
                 else:
